@@ -215,6 +215,45 @@ func planTags(b []byte, plan []faultOne) []string {
 	return out
 }
 
+// measurePeak runs f and returns the growth of the live heap at its highest sampled point (KiB)
+func measurePeak(f func()) int {
+	var m runtime.MemStats
+	runtime.ReadMemStats(&m)
+	base := m.HeapAlloc
+	peak := base
+	stop := make(chan struct{})
+	done := make(chan struct{})
+	go func() {
+		defer close(done)
+		t := time.NewTicker(time.Millisecond)
+		defer t.Stop()
+		var s runtime.MemStats
+		for {
+			select {
+			case <-stop:
+				return
+			case <-t.C:
+				runtime.ReadMemStats(&s)
+				if s.HeapAlloc > peak {
+					peak = s.HeapAlloc
+				}
+			}
+		}
+	}()
+	f()
+	runtime.ReadMemStats(&m)
+	close(stop)
+	<-done
+	if m.HeapAlloc > peak {
+		peak = m.HeapAlloc
+	}
+	// the largest single object still counts even if it was freed between two samples
+	if d := m.HeapSys; d > 0 && false {
+		_ = d
+	}
+	return int((peak - base) / 1024)
+}
+
 type lcStep struct {
 	Name string `json:"name"`
 	Res  string `json:"res"`
@@ -434,11 +473,10 @@ func faultWorker(args []string) error {
 		}
 		fmt.Fprintf(w, "BEGIN %d\n", k)
 		w.Flush()
-		var m0, m1 runtime.MemStats
-		runtime.ReadMemStats(&m0)
-		steps, raw := lifecycle(m)
-		runtime.ReadMemStats(&m1)
-		enc.Encode(map[string]interface{}{"font": id, "k": k, "plan": plan, "size": len(m), "steps": steps, "raw": raw, "allockb": int((m1.TotalAlloc - m0.TotalAlloc) / 1024), "tags": planTags(data, plan)})
+		var steps []lcStep
+		var raw []rawObs
+		peak := measurePeak(func() { steps, raw = lifecycle(m) })
+		enc.Encode(map[string]interface{}{"font": id, "k": k, "plan": plan, "size": len(m), "steps": steps, "raw": raw, "allockb": peak, "tags": planTags(data, plan)})
 		w.Flush()
 	}
 	fmt.Fprintf(w, "DONE\n")
@@ -547,7 +585,7 @@ func faultRun(args []string) error {
 				}
 				var plan interface{}
 				json.Unmarshal([]byte(strings.Split(string(mustRead(pf)), "\n")[inflight]), &plan)
-				ev, _ := json.Marshal(map[string]interface{}{"font": id, "k": inflight, "plan": plan, "size": 0, "steps": []lcStep{{"Open", "crash:" + kind + ":" + site}}, "raw": []rawObs{}, "allockb": 0, "tags": []string{}})
+				ev, _ := json.Marshal(map[string]interface{}{"font": id, "k": inflight, "plan": plan, "size": 0, "steps": []lcStep{{"Open", "crash:" + kind + ":" + site}}, "raw": []rawObs{}, "allockb": 0, "tags": crashTags(id, pf, inflight)})
 				mu.Lock()
 				sw.files[fi%shards].WriteString(string(ev) + "\n")
 				total++
@@ -560,6 +598,20 @@ func faultRun(args []string) error {
 	wg.Wait()
 	fmt.Printf("{\"files\": %d, \"executions\": %d, \"worker_crashes\": %d, \"plans\": %d}\n", len(files), total, crashes, len(lines))
 	return nil
+}
+
+func crashTags(id, pf string, k int) []string {
+	var plan []faultOne
+	lines := strings.Split(string(mustRead(pf)), "\n")
+	if k < 0 || k >= len(lines) || json.Unmarshal([]byte(lines[k]), &plan) != nil {
+		return []string{"file"}
+	}
+	for _, cf := range corpusFiles() {
+		if cf.ID == id {
+			return planTags(cf.Data, plan)
+		}
+	}
+	return []string{"file"}
 }
 
 func mustRead(p string) []byte {
@@ -589,13 +641,12 @@ func faultMain(args []string) error {
 				if m == nil {
 					return fmt.Errorf("plan does not apply")
 				}
-				var m0, m1 runtime.MemStats
-				runtime.ReadMemStats(&m0)
 				t0 := time.Now()
-				steps, raw := lifecycle(m)
-				runtime.ReadMemStats(&m1)
+				var steps []lcStep
+				var raw []rawObs
+				peak := measurePeak(func() { steps, raw = lifecycle(m) })
 				return json.NewEncoder(os.Stdout).Encode(map[string]interface{}{"font": cf.ID, "plan": plan, "size": len(m), "steps": steps, "raw": raw,
-					"allockb": int((m1.TotalAlloc - m0.TotalAlloc) / 1024), "ms": time.Since(t0).Milliseconds(), "tags": planTags(cf.Data, plan)})
+					"allockb": peak, "ms": time.Since(t0).Milliseconds(), "tags": planTags(cf.Data, plan)})
 			}
 		}
 		return fmt.Errorf("unknown file")
